@@ -163,10 +163,43 @@ STMT = ["%(a)s += 1", "%(a)s.zq += 1", "%(a)s[0] += 1", "%(a)s[0] = 1", "%(a)s.z
         "try:\n    pass\nfinally:\n    %(a)s", "_x = yield_ = %(a)s", "_x, _z = %(a)s, %(b)s", "_x = await_ = [%(b)s, %(a)s][0]"]
 
 
+# import statements of every form inside the snippet, followed by reads of the package root (%(rm)s); a method
+# default / annotation naming something the snippet binds only further down (%(ra)s = root of %(a)s);
+# global / nonlocal / del / match / async / walrus constructs (for the frame oracle: analysing them must not
+# touch the namespaces).  %(m)s = a dotted module name of the universe, %(pm)s.%(lm)s its parent / last component.
+STMT2 = ["import %(m)s\n%(rm)s.xa", "import %(m)s as _al\n%(rm)s.xa\n_al", "import %(m)s as _al\n%(rm)s.zq()",
+         "from %(pm)s import %(lm)s\n%(rm)s.xb\n%(lm)s", "from %(pm)s import %(lm)s as _al\n%(rm)s", "from %(pm)s import %(lm)s as _al\n%(lm)s",
+         "from . import %(lm)s\n%(a)s", "from .%(rm)s import xa\n%(a)s", "import %(m)s, %(rb)s as _al2\n%(a)s\n%(rb)s",
+         "import %(m)s.zq as _al\n%(rm)s", "def _g():\n    import %(m)s as _al\n%(rm)s",
+         "class _K:\n    def _m(self, _p=%(a)s):\n        pass\n%(ra)s = 1",
+         "class _K:\n    def _m(self, _p: %(a)s = 0) -> %(b)s:\n        pass\nimport %(ra)s",
+         "class _K:\n    class _L:\n        def _m(self, *, _p=%(a)s):\n            pass\n%(ra)s = 1",
+         # (a def nested in a def, CALLED before the later binding, is outside the finder's design: function bodies
+         #  are checked against the final module scope - flow-insensitive, DESIGN F34 - so the outer def is not called)
+         "def _o():\n    def _i(_p=%(a)s):\n        pass\n    return _i\n%(ra)s = 1",
+         "def _o():\n    def _i(_p: %(a)s = 0):\n        pass\n    return _i\nimport %(ra)s\n_o()",
+         "class _K:\n    _y = lambda _s, _p=%(a)s: _p\n%(ra)s = 1", "_x = %(a)s\n%(ra)s = 1",
+         "def _g():\n    global %(ra)s\n    %(ra)s = 1", "def _g():\n    global zq_\n    zq_ = %(a)s\n%(b)s",
+         "def _g():\n    global %(ra)s\n_x = %(a)s", "global %(ra)s\n_x = %(b)s",
+         "def _o():\n    _v = 0\n    def _i():\n        nonlocal _v\n        _v = %(a)s\n    return _i\n%(b)s",
+         "_x = 1\ndel _x\n%(a)s", "match %(a)s:\n    case %(b)s.zq:\n        pass\n    case _:\n        pass",
+         "match 0:\n    case %(a)s() as _m:\n        pass", "match 0:\n    case %(a)s(zq=%(b)s.zq) | 1:\n        pass",
+         "match 0:\n    case [_p, *_q] if %(a)s:\n        pass\n    case _ if %(b)s:\n        pass",
+         "async def _c():\n    await %(a)s", "async def _c(_p=%(a)s):\n    async with %(b)s as _w:\n        pass",
+         "if (_y := %(a)s):\n    pass", "_x = [_z for _i in (1,) if (_z := %(a)s)]", "type_ = %(a)s; lambda_ = %(b)s",
+         "from %(rm)s import *\n%(a)s", "from %(pm)s import *\n_x = %(b)s"]
+
+
 def gen_stmt_code(r, mods, db):
     parts = []
     for _ in range(r.randint(1, 2)):
-        parts.append(r.choice(STMT) % {"a": pick_name(r, mods, db), "b": pick_name(r, mods, db)})
+        a, b = pick_name(r, mods, db), pick_name(r, mods, db)
+        dotted = [d for d in sorted(mods) if "." in d]
+        m = r.choice(dotted) if dotted and r.random() < .8 else (r.choice(sorted(mods)) if mods and r.random() < .7 else rand_name(r))
+        pm, _, lm = m.rpartition(".")
+        sub = {"a": a, "b": b, "ra": a.split(".")[0], "rb": b.split(".")[0], "m": m, "rm": m.split(".")[0],
+               "pm": pm or m, "lm": lm}
+        parts.append(r.choice(STMT if r.random() < .5 else STMT2) % sub)
     return "\n".join(parts) + r.choice(["", "\n"])
 
 
@@ -179,9 +212,19 @@ BAD_WRAP = [" %s", "\t%s", "  %s", "\n %s", "%s\n  %s", "%s \\", "(%s", "%s)", "
 OK_WRAP = ["%s ", "%s\n", "%s;", "%s  # c", "\n%s", "%s\n\n", "(%s)\n", "%s\t", "\\\n%s"]
 
 
+KEYWORDS = ["async", "await", "class", "import", "None", "True", "False", "for", "lambda", "def", "is", "in", "not",
+            "global", "nonlocal", "yield", "with", "as", "from", "print", "match", "case", "type", "_"]   # the last five are valid names
+
+
 def gen_bad_code(r, mods, db):
     if r.random() < .25:
         return r.choice(BAD_CODE)
+    if r.random() < .3:
+        # the WHOLE snippet is a bare dotted name with a keyword as a non-first component: find_missing_imports'
+        # fast path for dotted identifiers must reject it (it does not compile), not import its head
+        head = pick_name(r, mods, db).split(".")
+        k = r.randint(1, len(head))
+        return ".".join(head[:k] + [r.choice(KEYWORDS)] + ([r.choice(ATTR)] if r.random() < .4 else []))
     w = r.choice(BAD_WRAP)
     base = gen_code(r, mods, db)
     return w.replace("%s", base)
@@ -216,6 +259,10 @@ def gen_ns(r, mods, nlevels, exotic):
                 nss[lvl][r.choice([a, r.choice(ALIAS)])] = "val:%s.%s" % (d, a)
         elif exotic:
             nss[lvl][rand_name(r)] = fresh() if r.random() < .5 or not loadable else "mod:" + r.choice(loadable)
+    if mods and r.random() < .12:
+        # a hand-made / stale module object: right __name__, but not the sys.modules entry
+        d = r.choice(sorted(mods))
+        nss[r.randrange(nlevels)][d.split(".")[0]] = "fake:%d:%s" % (int(fresh()[4:]), d.split(".")[0] if r.random() < .8 else d)
     return nss
 
 
@@ -313,6 +360,34 @@ def gen_shadow_case(seed, i):
             "preload": [N], "ops": ops}
 
 
+def gen_stale_case(seed, i):
+    """an OUTER (or the target) namespace binds the package name to a module OBJECT with the right __name__
+    that is not the sys.modules entry (hand-made types.ModuleType / stale copy); the code reads a submodule the
+    stale object lacks but that is importable: the stale object takes the name - nothing may be imported."""
+    r = cm.rng(seed, "c06-stale", i)
+    mods = gen_world(r, clash=False)
+    N = r.choice(TOPS)
+    mods[N] = dict(pkg=True, attrs=[a for a in ATTR if r.random() < .4], raises=False)
+    sub = r.choice(SUBS)
+    mods[N + "." + sub] = dict(pkg=False, attrs=["xa"], raises=False)
+    close_world(mods)
+    db = rand_db(r, mods) if r.random() < .4 else []
+    db = [e for e in db if e[1] != N]
+    nlev = r.choice([2, 2, 3])
+    nss = [dict() for _ in range(nlev)]
+    lvl = r.randrange(nlev - 1) if r.random() < .75 else nlev - 1
+    nss[lvl][N] = "fake:1:" + N
+    preload = [N] if r.random() < .5 else []                    # the real package may or may not be loaded
+    if r.random() < .3:
+        preload.append(N + "." + sub)
+    codes = ["%s.%s" % (N, sub), "%s.%s.xa + 1" % (N, sub), "(lambda: %s.%s.xa)" % (N, sub), "%s.%s , %s" % (N, sub, N),
+             "_x = %s.%s\n" % (N, sub)]
+    ops = [{"op": "call", "code": r.choice(codes)}]
+    if r.random() < .4:
+        ops += [{"op": "call", "code": r.choice(codes)}]
+    return {"i": i, "stream": "stale", "mods": mods, "db": db, "forget": [], "nss": nss, "preload": preload, "ops": ops}
+
+
 def gen_f21_case(seed, i):
     """DB with __forget_imports__ entries that empty a derived key (finding F21)."""
     r = cm.rng(seed, "c06-f21", i)
@@ -375,8 +450,13 @@ def universe_roots(case):
     return roots
 
 
+fakes = {}          # id(module object made by the harness) -> "ext:n"
+
+
 def _canon(v, case_vals):
     import types
+    if id(v) in fakes:
+        return fakes[id(v)]
     if isinstance(v, Ext):
         return "ext:%d" % v.n
     if isinstance(v, types.ModuleType):
@@ -415,11 +495,23 @@ def child_main(case, root):
                         vals.setdefault(v, v)
     note_vals()
     nss = []
+    import types
+    keep = []
     for ns in case["nss"]:
         d = {}
         for k, v in ns.items():
             if v.startswith("ext:"):
                 d[k] = Ext(int(v[4:]))
+            elif v.startswith("fake:"):
+                _, n_, nm_ = v.split(":")
+                fm = types.ModuleType(nm_)
+                fm.__file__ = os.path.join(root, *nm_.split(".")) + ".py"
+                if nm_ in case["mods"]:
+                    for a_ in case["mods"][nm_]["attrs"]:
+                        setattr(fm, a_, "stale-%s" % a_)
+                fakes[id(fm)] = "ext:%d" % int(n_)
+                keep.append(fm)
+                d[k] = fm
             elif v.startswith("mod:"):
                 if v[4:] in sys.modules:
                     d[k] = sys.modules[v[4:]]
@@ -607,7 +699,8 @@ def exec_probe(code, nss):
             except NameError as e:
                 return "%s (statement %d)" % (e, body.index(stmt))
             except BaseException:
-                pass
+                if isinstance(stmt, (ast.Import, ast.ImportFrom)):
+                    return None         # the snippet's own import failed: what follows is not auto-import's business
         return None
     return _in_grandchild(fn)
 
@@ -798,7 +891,7 @@ def d_index(nm, idx):
 # oracle (independent of the model)
 
 def spelled_names(code):
-    """maximal dotted chains rooted at a Name, and all Name ids, read by the snippet"""
+    """maximal dotted chains rooted at a Name, and the ids of all names the snippet READS (Load context)"""
     try:
         tree = ast.parse(code)
     except SyntaxError:
@@ -813,8 +906,10 @@ def spelled_names(code):
             return None if b is None else b + "." + n.attr
         return None
     for n in ast.walk(tree):
-        if isinstance(n, ast.Name):
+        if isinstance(n, ast.Name) and isinstance(n.ctx, ast.Load):
             ids.add(n.id)
+        if isinstance(n, ast.AugAssign) and isinstance(n.target, ast.Name):
+            ids.add(n.target.id)                         # `x += 1` reads x
         c = chain(n)
         if c:
             chains.add(c)
@@ -822,7 +917,8 @@ def spelled_names(code):
 
 
 def compiles(code):
-    """the property's "code that does not parse": decided by CPython on the ORIGINAL string"""
+    """does CPython compile the ORIGINAL string?  ("does not parse" = ast.parse, i.e. CPython's parser, on the
+    original string - see spelled_names; compile() additionally runs the symbol-table pass)"""
     try:
         compile(code, "<snippet>", "exec", dont_inherit=True)
         return True
@@ -901,6 +997,14 @@ def is_attrstore(code, nameerror):
     return bool(m) and m.group(1) in attr_store_roots(code)
 
 
+def has_star_import(code):
+    """classifier of F07c: a `from m import *` anywhere in the snippet"""
+    try:
+        return any(isinstance(n, ast.ImportFrom) and any(a.name == "*" for a in n.names) for n in ast.walk(ast.parse(code)))
+    except SyntaxError:
+        return False
+
+
 def has_dotted_key(case, prev):
     """classifier of F07b (outside the hypothesis plain_keys of C07_success_resolves_partial):
     some namespace of the stack has a key that is not a plain identifier"""
@@ -933,7 +1037,9 @@ def oracle(ctx, prop, case, im, wfp=False):
         code = o["code"]
         chains, ids = spelled_names(code)
         if chains is not None and not compiles(code):
-            chains, ids = None, None
+            # parses, but the symbol-table pass rejects it ("name 'x' is used prior to global declaration",
+            # "'return' outside function"): NOT "code that does not parse" - pyflyby's ast.parse accepts it
+            ctx.bump("parses_but_does_not_compile")
         cur = st["st"]
         if isinstance(st["r"], str):
             if is_f21(case, st):
@@ -953,7 +1059,10 @@ def oracle(ctx, prop, case, im, wfp=False):
                 if st["r"] is not False or any(st["added"]) or st["cell_changed"] or st["failed_changed"] or st["exec"]:
                     bad.append(("unparsable_noop", "call %d: unparsable %r gave %r / changed state" % (k, code, st["r"])))
             else:
+                via_try = {k2 for t in st["try"] if t["res"] for k2 in t["added"]}
                 for key in st["added"][-1]:
+                    if key not in via_try:
+                        bad.append(("only_needed", "call %d (%r): %r was bound (to %s) although no successful _try_import bound it" % (k, code, key, cur["nss"][-1].get(key))))
                     if key not in ids:
                         bad.append(("only_needed", "call %d (%r): added %r which the code does not read" % (k, code, key)))
                     for lvl, ns in enumerate(prev["nss"]):
@@ -983,14 +1092,18 @@ def oracle(ctx, prop, case, im, wfp=False):
                         bad.append(("failure_atomic", "call %d: %r raised but is not in _IMPORT_FAILED" % (k, stmt)))
         if prop == "C07" and chains is not None:
             if st["r"] is True and st["nameerror"]:
-                if is_attrstore(code, st["nameerror"]):
+                if has_star_import(code):
+                    ctx.known_hit("F07c", "a `from m import *` in the code switches missing-import reporting off (by design: the names it provides are unknown): True result, undefined names raise NameError")
+                elif is_attrstore(code, st["nameerror"]):
                     ctx.known_hit("F10-attrstore", "`a.b = v` with `a` unbound: find_missing_imports does not report `a` (open finding of C05), so auto_import returns True and executing raises NameError")
                 elif has_dotted_key(case, prev):
                     ctx.known_hit("F07b", "a namespace holding a dotted key 'a.b' makes a.b 'not need import' while a is unbound: True result, then NameError")
                 else:
                     bad.append(("success_resolves", "call %d: auto_import(%r) returned True but executing it raises NameError: %s" % (k, code, st["nameerror"])))
             if st["r"] is True and st["missing_after"]:
-                if wfp:
+                if has_star_import(code):
+                    pass
+                elif wfp:
                     # C07_success_resolves_wf applies (initial state WF, world without clash; WF is preserved)
                     bad.append(("success_resolves_wf", "call %d: well-formed state, auto_import(%r) returned True but afterwards %r still need import" % (k, code, st["missing_after"])))
                 elif has_dotted_key(case, prev):
@@ -1087,7 +1200,8 @@ def run_shared(ctx, prop, n=None, nf21=None):
     ]
     ctx.notes["trusted_base"] = ["one interpreter state per case is obtained by fork() of a worker that has imported only pyflyby and the harness"]
     cases = (cm.load_corpus(prop) + [gen_case(ctx.seed, i) for i in range(n)]
-             + [gen_shadow_case(ctx.seed, i) for i in range(nshadow)] + [gen_f21_case(ctx.seed, i) for i in range(nf21)])
+             + [gen_shadow_case(ctx.seed, i) for i in range(nshadow)] + [gen_stale_case(ctx.seed, i) for i in range(nshadow // 2)]
+             + [gen_f21_case(ctx.seed, i) for i in range(nf21)])
     impl = cm.run_impl("c06", "impl_case", cases, timeout_case=40)
     exprs, nms, idxs = [], [], []
     for ci, (c, im) in enumerate(zip(cases, impl)):
